@@ -12,6 +12,7 @@ import (
 	"sort"
 
 	"verif/sim/core"
+	"verif/sim/ref"
 	_ "verif/sim/props"
 )
 
@@ -78,6 +79,9 @@ func main() {
 	flag.Parse()
 
 	debug.SetGCPercent(400)
+	if err := ref.SelfTest(); err != nil {
+		die(2, "reference model failed its anchors, refusing to act as oracle: %v", err)
+	}
 	p := core.Lookup(*prop)
 	if p == nil {
 		die(2, "unknown property %q (have %v)", *prop, core.Registered())
